@@ -36,6 +36,9 @@ class Outcome:
             status, detail, text, trace, ref, steps
 
 
+_dnf = [0]      # programs that did not finish, in this process
+
+
 def run_ast(world, prog, cap=5000, text=None, ref_cap=20000):
     """status in: ok | undefined | refcap | rejected | crash | abort | capped | mismatch | does-not-finish"""
     text = text if text is not None else render.render(prog)
@@ -46,12 +49,17 @@ def run_ast(world, prog, cap=5000, text=None, ref_cap=20000):
         return Outcome('undefined', str(ex), text)
     except refmod.RefCap:
         return Outcome('refcap', None, text)
+    if _dnf[0] >= 3:
+        # non-termination has been reported three times by this worker; do not spend hours on the rest
+        return Outcome('undefined', 'skipped after repeated non-termination', text)
     world.reset()
     try:
         res = limited(world.run_script, text, cap)
     except TooLong:
+        _dnf[0] += 1
         return Outcome('does-not-finish', 'no result within %d s' % TIME_LIMIT_S, text)
     if res.raised and 'TooLong' in str(res.raised):
+        _dnf[0] += 1
         return Outcome('does-not-finish', 'no result within %d s' % TIME_LIMIT_S, text)
     if res.accepted is None:
         return Outcome('crash', res.raised, text)
